@@ -122,6 +122,7 @@ partial def tyOf : Sexp → Option Ty
   | .list [.atom "nu", t] => (tyOf t).map .notUndef
   | .list [.atom "type", t] => (tyOf t).map .typ
   | .list [.atom "sens", t] => (tyOf t).map .sensitive
+  | .list [.atom "itr", t] => (tyOf t).map .iterator
   | .list [.atom "iter", t] => (tyOf t).map .iterable
   | .list [.atom "obj"] => some (.object none)
   | .list (.atom "obj" :: ns) => (ns.mapM Sexp.nat?).map fun p => .object (some p)
@@ -155,6 +156,7 @@ partial def tyStr : Ty → String
   | .notUndef t => s!"(nu {tyStr t})"
   | .typ t => s!"(type {tyStr t})"
   | .sensitive t => s!"(sens {tyStr t})"
+  | .iterator t => s!"(itr {tyStr t})"
   | .iterable t => s!"(iter {tyStr t})"
   | .object none => "(obj)"
   | .object (some p) => "(obj" ++ String.join (p.map fun n => s!" {n}") ++ ")"
@@ -193,7 +195,7 @@ partial def rxOk : Ty → Bool
   | .tuple ts _ => ts.all rxOk
   | .struct ms => ms.all fun m => rxOk m.2.2
   | .variant ts => ts.all rxOk
-  | .optional t | .notUndef t | .typ t | .sensitive t | .iterable t => rxOk t
+  | .optional t | .notUndef t | .typ t | .sensitive t | .iterable t | .iterator t => rxOk t
   | _ => true
 
 def ty? (e : Sexp) : Option Ty := do
